@@ -4,7 +4,8 @@
    (nonce; None = plain InitializeContext, Some classes = request that went through
    NewCSSMiddleware(next, classes...)).  [out] is everything written, tagged with the context;
    [proj c out] is the document written in context c and [log] its sequence of definitions
-   (function in a <script>, rule in a <style>, once body) and uses (call, class name, once render). *)
+   (function in a <script>, rule in a <style>, once body), uses (call, class name, once render) and
+   registrations (the rendering context passes through a further CSS middleware: op OMiddleware). *)
 From Coq.Strings Require Import Byte String.
 From Coq Require Import List NArith.
 Import ListNotations.
@@ -19,7 +20,8 @@ Proof. exact multi_at_most_once. Qed.
 Print Assumptions C12_emit_at_most_once.
 
 (* Every call, every class name of a component class the element holds switched on, every once render
-   comes after the definition in the same document, or the class was registered with the middleware. *)
+   comes after the definition in the same document, or the class was registered with the middleware the
+   request came through, or with a middleware the context passed through earlier in the document. *)
 Theorem C12_emit_before_first_use :
   forall (cfgs : nat -> cfg) (h : list (nat * op)) st' out (c : nat),
     run_multi (fun d => init_reg (cfgs d)) h = (st', out) ->
@@ -52,7 +54,23 @@ Theorem C12_middleware_never_inlined :
 Proof. exact multi_never_inlined. Qed.
 Print Assumptions C12_middleware_never_inlined.
 
-(* ... and the stylesheet endpoint's body contains it. *)
+(* The same for a middleware reached later - stacked on another one, below a handler that initialised the
+   context, set a nonce and rendered part of the page: from the point the context passes through it, whatever
+   the context held before, no rule of a class it registers is written into the page. *)
+Theorem C12_registered_midway_never_inlined :
+  forall (cfgs : nat -> cfg) (h : list (nat * op)) st' out (c : nat),
+    run_multi (fun d => init_reg (cfgs d)) h = (st', out) ->
+    never_inlined_once_registered (log (proj c out)).
+Proof. exact multi_registered_midway. Qed.
+Print Assumptions C12_registered_midway_never_inlined.
+
+(* Every middleware's stylesheet endpoint serves what that middleware registers ... *)
+Theorem C12_sheet_serves_registered :
+  forall (l : list cssclass) (k : cls), In k (handler_comps l) -> exists a b, sheet_of l = a ++ crule k ++ b.
+Proof. exact sheet_serves_registered. Qed.
+Print Assumptions C12_sheet_serves_registered.
+
+(* ... in particular the one the request came through. *)
 Theorem C12_stylesheet_serves_registered :
   forall (cf : cfg) (k : cls), In k (mw_comps cf) -> exists a b, stylesheet cf = a ++ crule k ++ b.
 Proof. exact stylesheet_serves_registered. Qed.
@@ -80,11 +98,12 @@ Print Assumptions C12_registry_keys_distinct.
 
 (* The decidable predicate the harness evaluates on the documents the implementation wrote (given the classes
    registered up front and the uses the history makes in that context) implies: no definition twice, none of a
-   registered class, and every use, in order, carries its call / the names of the component classes it holds
-   switched on. *)
+   registered class - registered up front or by a middleware passed earlier in the document -, and every use, in
+   order, carries its call / the names of the component classes it holds switched on. *)
 Theorem C12_check_log_sound :
   forall (l : list iev) (d : list id) (w : list want), check_log d w l = true ->
-    NoDup (idefs l) /\ (forall i, In i (idefs l) -> ~ In i d) /\ Forall2 serves (iuses l) w.
+    NoDup (idefs l) /\ (forall i, In i (idefs l) -> ~ In i d) /\ Forall2 serves (iuses l) w /\
+    (forall pre i post, l = pre ++ IReg i :: post -> ~ In i (idefs post)).
 Proof. exact check_log_sound. Qed.
 Print Assumptions C12_check_log_sound.
 
@@ -140,3 +159,31 @@ Example C12_ex_nonce_midway :
   render (snd (run (init_reg (mkCfg [] None)) [ORender s1; ONonce (bs "n9"); ORender s1; OElem [] [s1]])) =
   bs "<script>function f1(){}</script><script>f1()</script><script nonce=""n9"">f1()</script><div onclick=""f1()""></div>".
 Proof. vm_compute. reflexivity. Qed.
+
+(* a middleware below an initialised context: a layout handler sets a nonce, renders s1 and an element holding k1
+   and k2, then hands over to a sub-handler wrapped in NewCSSMiddleware(next, k2, k1): the registry, the nonce and
+   what was defined stay; k1's and k2's rules are not written again, s1 is not defined again *)
+Example C12_ex_middleware_midway :
+  let h := [ONonce (bs "n9"); ORender s1; OElem [FComp k1] []; OMiddleware [KComp k2; KComp k1];
+            ORender s1; OElem [FComp k1; FComp k2] [s1]] in
+  let cs := snd (run (init_reg (mkCfg [] None)) h) in
+  render cs =
+    bs "<script nonce=""n9"">function f1(){}</script><script nonce=""n9"">f1()</script><style type=""text/css"">.k_1{color:red;}</style><div class=""k_1""></div><script nonce=""n9"">f1()</script><div class=""k_1 k_2"" onclick=""f1()""></div>"
+  /\ log cs = [Def (Script (bs "f1")); Use (Script (bs "f1")); Def (Class (bs "k_1")); Use (Class (bs "k_1"));
+               Reg (Class (bs "k_2")); Reg (Class (bs "k_1")); Use (Script (bs "f1"));
+               Use (Class (bs "k_1")); Use (Class (bs "k_2")); Use (Script (bs "f1"))]
+  /\ sheet_of [KComp k2; KComp k1] = bs ".k_2{color:blue;}.k_1{color:red;}".
+Proof. vm_compute. repeat split. Qed.
+(* two stacked middlewares (one per component library): neither library's class is inlined *)
+Example C12_ex_middleware_stacked :
+  render (snd (run (init_reg (mkCfg [] (Some [KComp k1]))) [OMiddleware [KComp k2]; OElem [FComp k1; FComp k2] []])) =
+  bs "<div class=""k_1 k_2""></div>".
+Proof. vm_compute. reflexivity. Qed.
+(* check_log with a registration midway: a rule written after it is refused, one written before it is fine *)
+Example C12_ex_check_log_midway :
+  check_log [] [WAttr [FComp k1]; WAttr [FComp k1]]
+    [IDef (Class (bs "k_1")); INames [bs "k_1"]; IReg (Class (bs "k_1")); INames [bs "k_1"]] = true /\
+  check_log [] [WAttr [FComp k1]] [IReg (Class (bs "k_1")); IDef (Class (bs "k_1")); INames [bs "k_1"]] = false /\
+  check_log [] [WCallAttr s1; WCallAttr s1]
+    [IDef (Script (bs "f1")); ICallAttr (bs "f1()"); IReg (Class (bs "k_1")); IDef (Script (bs "f1")); ICallAttr (bs "f1()")] = false.
+Proof. vm_compute. repeat split. Qed.
